@@ -170,6 +170,9 @@ def check_c15(tier):
         rep.sample({"decode": {"draft": c["draft"], "note": c["note"], "stream_len": len(c["stream"]), "newerr": c["newerr"], "results": [r["res"] for r in c["reads"]][-3:]}})
     rep.assumptions = ["the caller's record-size limit is below 2^31", "the decoder machine is compared up to the first error; up to 3 further reads are made and must still hand out only authenticated bytes",
                        "digest texts with CR/LF or non-zero unused base64 bits may be refused or decoded (property is about the decoded proof)"]
+    # 'any byte stream whatsoever' includes how the stream is delivered and a source that fails (ReaderFaults.tla)
+    from rf_checks import reader_faults
+    reader_faults(rep, "C15", ["mice"], tier)
     return rep.finish()
 
 
